@@ -15,12 +15,14 @@ def plan(tier, pid="C01"):
         combos = [("spot1+fut", 0, 4 if deep == "spot1+fut" else 3), ("spot4+fut", 1, 3), ("fut+fut", 4, 4 if deep == "fut+fut" else 3),
                   ("etf+es", 5, 3), ("spot+spot", 1, 3), ("halfmult", 3, 3),
                   ("spot1+fut", 4, 3), ("fut+fut", 0, 3), ("etf+es", 1, 3), ("halfmult", 2, 3), ("spot4+fut", 5, 3), ("spot+spot", 3, 3)]
-        return [(u, ledger.FEES[f], d, 0.0) for u, f, d in combos] + [("spot1+fut", ledger.FEES[1], 3, 0.05), ("fut+fut", ledger.FEES[0], 3, 0.05), ("three", ledger.FEES[1], 3, 0.0)]
+        return [(u, ledger.FEES[f], d, 0.0) for u, f, d in combos] + [("micro", ledger.FEES[1], 3, 0.0), ("spot1+fut", ledger.FEES[1], 3, 0.05), ("fut+fut", ledger.FEES[0], 3, 0.05), ("three", ledger.FEES[1], 3, 0.0)]
     out = []
     for u in ledger.UNIVERSES:
         for f in (ledger.FEES[0], ledger.FEES[1], ledger.FEES[4], ledger.FEES[5]):
             out.append((u, f, 4 if u != "three" else 3, 0.0))
     out.append(("three", ledger.FEES[1], 4, 0.0))
+    out.append(("micro", ledger.FEES[1], 4, 0.0))
+    out.append(("micro", ledger.FEES[0], 4, 0.05))
     # a level deeper on four combinations (split by first operation)
     for u, f in (("spot1+fut", 1), ("fut+fut", 4), ("spot4+fut", 0), ("etf+es", 5)):
         out.append((u, ledger.FEES[f], 5, 0.0))
@@ -32,7 +34,7 @@ def plan(tier, pid="C01"):
 
 def _unit(u):
     universe, fee, depth, rate, scale, deposit, first = u
-    r = ledger.bfs(universe, fee, depth, scale, deposit, ledger.alphabet(ncontracts=len(ledger.UNIVERSES[universe])), rate=rate, first_ops=first)
+    r = ledger.bfs(universe, fee, depth, scale, deposit, ledger.alphabet(ncontracts=len(ledger.contracts_of(universe))), rate=rate, first_ops=first)
     r["unit"] = (universe, fee, depth, rate)
     r["split"] = first is not None
     return r
@@ -46,10 +48,10 @@ def run(tier, pid):
     for (u, f, d, rt) in plan(tier, pid):
         if d >= (4 if tier == "quick" else 5):
             # deep units are split by first operation (each part deduplicates on its own) to use all cores
-            for op in ledger.alphabet(ncontracts=len(ledger.UNIVERSES[u])):
-                units.append((u, f, d, rt, scale, deposit, [op]))
+            for op in ledger.alphabet(ncontracts=len(ledger.contracts_of(u))):
+                units.append((u, f, d, rt, ledger.unit_scale(u, scale), deposit, [op]))
         else:
-            units.append((u, f, d, rt, scale, deposit, None))
+            units.append((u, f, d, rt, ledger.unit_scale(u, scale), deposit, None))
     samples = []
     per_unit = []
     merged = {}
@@ -85,7 +87,7 @@ def run(tier, pid):
         for vpid, hist, msg in r["violations"]:
             if vpid != pid:
                 continue
-            case = {"universe": r["unit"][0], "fee": list(r["unit"][1]), "scale": scale, "rate": r["unit"][3],
+            case = {"universe": r["unit"][0], "fee": list(r["unit"][1]), "scale": ledger.unit_scale(r["unit"][0], scale), "rate": r["unit"][3],
                     "deposit": deposit, "history": [list(o) for o in hist]}
             rep.violation(case, "%s after history %s: %s" % (r["unit"][0], list(hist), msg),
                           group=(r["unit"][0], msg.split(" ")[0], len(hist)))
